@@ -1,4 +1,500 @@
 package main
 
-func cmdCheck(args []string) int    { return 3 }
-func cmdSelftest(args []string) int { return 3 }
+import (
+	"encoding/json"
+	"fmt"
+	"os"
+	"path/filepath"
+	"sort"
+	"strconv"
+	"strings"
+	"time"
+)
+
+type PropConfig struct {
+	Property    string    `json:"property"`
+	Assumptions []string  `json:"assumptions"`
+	Quick       []RunSpec `json:"quick"`
+	Thorough    []RunSpec `json:"thorough"`
+	RewriteOS   bool      `json:"rewrite_os,omitempty"`
+	Witnesses   int       `json:"witnesses,omitempty"`
+	Outside     []string  `json:"outside,omitempty"`
+}
+
+type KnownFinding struct {
+	Property string            `json:"property"`
+	Status   string            `json:"status"` // known | fixed
+	Harness  string            `json:"harness,omitempty"`
+	Kind     string            `json:"kind,omitempty"`
+	ID       string            `json:"id,omitempty"`
+	IDPrefix string            `json:"id_prefix,omitempty"`
+	Observe  map[string]string `json:"observe,omitempty"`
+	What     string            `json:"what"`
+	Commit   string            `json:"commit,omitempty"`
+}
+
+type KnownFile struct {
+	Findings []KnownFinding `json:"findings"`
+}
+
+func (k *KnownFinding) matches(prop string, f *Finding) bool {
+	if k.Status != "known" || k.Property != prop {
+		return false
+	}
+	if k.Kind != "" && k.Kind != f.Kind {
+		return false
+	}
+	if k.Harness != "" && k.Harness != f.Harness {
+		return false
+	}
+	if k.ID != "" && k.ID != f.ID {
+		return false
+	}
+	if k.IDPrefix != "" && !strings.HasPrefix(f.ID, k.IDPrefix) {
+		return false
+	}
+	for n, v := range k.Observe {
+		if f.Observe[n] != v {
+			return false
+		}
+	}
+	return true
+}
+
+type checkedFinding struct {
+	spec    RunSpec
+	f       *Finding
+	status  string // violation | known | mismatch | inconclusive
+	native  string
+	replay  string
+	knownIx int
+}
+
+func cmdCheck(args []string) int {
+	if len(args) < 2 {
+		fmt.Fprintln(os.Stderr, "usage: gosym check <property> quick|thorough|replay <file>")
+		return 2
+	}
+	prop := args[0]
+	tier := args[1]
+	if tier == "replay" {
+		if len(args) < 3 {
+			return 2
+		}
+		return cmdReplay(prop, args[2])
+	}
+	if v := os.Getenv("VERIF_TIER"); v == "quick" || v == "thorough" {
+		tier = v
+	}
+	seed := int64(1)
+	if v := os.Getenv("VERIF_SEED"); v != "" {
+		if n, err := strconv.ParseInt(v, 10, 64); err == nil {
+			seed = n
+		}
+	}
+	solver := "z3"
+	if v := os.Getenv("VERIF_SOLVER"); v != "" {
+		solver = v
+	}
+	workers := 16
+	if v := os.Getenv("VERIF_WORKERS"); v != "" {
+		if n, err := strconv.Atoi(v); err == nil && n > 0 {
+			workers = n
+		}
+	}
+	t0 := time.Now()
+	defer os.RemoveAll(filepath.Join(verifDir, ".work", strconv.Itoa(os.Getpid())))
+
+	var cfg PropConfig
+	b, err := os.ReadFile(filepath.Join(verifDir, "props", prop+".json"))
+	if err != nil {
+		fmt.Println("no property config:", err)
+		return 3
+	}
+	if err := json.Unmarshal(b, &cfg); err != nil {
+		fmt.Println("bad property config:", err)
+		return 3
+	}
+	var known KnownFile
+	if b, err := os.ReadFile(filepath.Join(verifDir, "known_findings.json")); err == nil {
+		json.Unmarshal(b, &known)
+	}
+	runs := cfg.Quick
+	if tier == "thorough" {
+		runs = cfg.Thorough
+		if len(runs) == 0 {
+			runs = cfg.Quick
+		}
+	}
+	progs := map[string]*Program{}
+	var results []*RunResult
+	var problems []string
+	for _, spec := range runs {
+		key := strings.Join(spec.Files, ",")
+		p, ok := progs[key]
+		if !ok {
+			var err error
+			p, err = loadProgram(spec.Files)
+			if err != nil {
+				fmt.Println(err)
+				problems = append(problems, err.Error())
+				continue
+			}
+			progs[key] = p
+		}
+		res := runHarness(p, spec, solver, workers, seed)
+		results = append(results, res)
+		fmt.Printf("run %s%v: paths=%d vcs=%d queries=%v findings=%d wall=%.1fs exhaustive=%v\n", spec.Harness, spec.Args, res.Paths, res.VCs, res.Queries, len(res.Findings), res.WallS, res.Exhaustive)
+		for _, s := range res.Inconcl {
+			problems = append(problems, spec.Harness+": "+s)
+		}
+		for _, s := range res.EngineErr {
+			problems = append(problems, spec.Harness+": ENGINE "+s)
+		}
+		if !res.Exhaustive && len(res.Inconcl) == 0 && len(res.EngineErr) == 0 {
+			problems = append(problems, spec.Harness+": INCOMPLETE")
+		}
+		for _, r := range spec.Reach {
+			if res.Reached[r] == 0 {
+				problems = append(problems, fmt.Sprintf("%s%v: VACUOUS reachability witness %q never reached", spec.Harness, spec.Args, r))
+			}
+		}
+	}
+
+	// classify findings
+	var cfs []*checkedFinding
+	for _, res := range results {
+		for _, f := range res.Findings {
+			cf := &checkedFinding{spec: res.Spec, f: f, knownIx: -1}
+			switch f.Kind {
+			case "UNWIND", "ENGINE":
+				cf.status = "inconclusive"
+				problems = append(problems, fmt.Sprintf("%s: %s %s: %s", f.Harness, f.Kind, f.ID, f.Msg))
+			default:
+				for i := range known.Findings {
+					if known.Findings[i].matches(prop, f) {
+						cf.status = "known"
+						cf.knownIx = i
+						break
+					}
+				}
+			}
+			cfs = append(cfs, cf)
+		}
+	}
+
+	// native confirmation of unlisted findings + witness replays
+	cases := map[string][2]interface{}{}
+	fileSet := map[string]bool{}
+	for _, spec := range runs {
+		cases[caseKey(spec.Harness, spec.Args)] = [2]interface{}{spec.Harness, spec.Args}
+		for _, f := range spec.Files {
+			fileSet[f] = true
+		}
+	}
+	var files []string
+	for f := range fileSet {
+		files = append(files, f)
+	}
+	sort.Strings(files)
+	needNative := false
+	needRace := false
+	for _, cf := range cfs {
+		if cf.status == "" {
+			needNative = true
+			if cf.f.Kind == "RACE" {
+				needRace = true
+			}
+		}
+	}
+	nwit := cfg.Witnesses
+	if nwit == 0 {
+		nwit = 3
+		if tier == "thorough" {
+			nwit = 12
+		}
+	}
+	var bin, raceBin *NativeBin
+	validated := 0
+	if (needNative || nwit > 0) && len(results) > 0 {
+		var err error
+		bin, err = buildNative(files, cases, false, cfg.RewriteOS)
+		if err != nil {
+			problems = append(problems, "NATIVE-BUILD-ERROR: "+err.Error())
+		}
+		if needRace {
+			raceBin, err = buildNative(files, cases, true, cfg.RewriteOS)
+			if err != nil {
+				problems = append(problems, "NATIVE-BUILD-ERROR(race): "+err.Error())
+			}
+		}
+	}
+	nreplay := 0
+	for _, cf := range cfs {
+		if cf.status != "" {
+			continue
+		}
+		f := cf.f
+		nb := bin
+		if f.Kind == "RACE" {
+			nb = raceBin
+		}
+		if nb == nil {
+			cf.status = "mismatch"
+			cf.native = "no native binary"
+			continue
+		}
+		vec := writeTempReplay(f.Nondet, f.Harness)
+		reps := 1
+		if f.Kind == "RACE" {
+			reps = 30
+		}
+		ok := false
+		why := ""
+		for r := 0; r < reps && !ok; r++ {
+			out, _ := nb.run(caseKey(cf.spec.Harness, cf.spec.Args), vec, 60*time.Second)
+			o := parseNative(out)
+			ok, why = confirmFinding(f, o)
+			if !ok && f.Kind != "RACE" {
+				why += " | native output tail: " + tail(out, 400)
+			}
+		}
+		cf.native = why
+		nreplay++
+		if ok {
+			cf.status = "violation"
+			validated++
+			cf.replay = writeReplay(prop, nreplay, cf.spec, f, why)
+		} else if f.Kind == "HANG" || f.Kind == "RACE" {
+			// schedule-dependent findings cannot be forced natively: reported with the symbolic schedule
+			cf.status = "violation"
+			cf.replay = writeReplay(prop, nreplay, cf.spec, f, "schedule-dependent; native stress run did not reproduce: "+why)
+		} else {
+			cf.status = "mismatch"
+			cf.replay = writeReplay(prop, nreplay, cf.spec, f, "NOT REPRODUCED: "+why)
+			problems = append(problems, fmt.Sprintf("ENGINE-MISMATCH %s %s %s: %s (replay %s)", f.Harness, f.Kind, f.ID, why, cf.replay))
+		}
+	}
+	// witness replays
+	witnessDiffs := 0
+	if bin != nil {
+		for _, res := range results {
+			n := 0
+			for _, s := range res.Samples {
+				if n >= nwit {
+					break
+				}
+				n++
+				vec := writeTempReplay(s.Nondet, s.Harness)
+				out, _ := bin.run(caseKey(res.Spec.Harness, res.Spec.Args), vec, 60*time.Second)
+				o := parseNative(out)
+				bad := ""
+				switch {
+				case o.Diverged != "":
+					bad = o.Diverged
+				case o.Panic != "":
+					bad = "native panic on a path the engine considers clean: " + o.Panic
+				case len(o.Asserts) > 0:
+					bad = "native assertion failure on a clean path: " + strings.Join(o.Asserts, ",")
+				case !o.Ended:
+					bad = "native run did not finish: " + tail(out, 300)
+				default:
+					for k, v := range s.Observe {
+						if nv, ok := o.Observe[k]; ok && nv != v && !strings.HasPrefix(v, "agg(") && nv != "?" {
+							bad = fmt.Sprintf("observe %s: symbolic %s native %s", k, v, nv)
+						}
+					}
+				}
+				if bad != "" {
+					witnessDiffs++
+					problems = append(problems, fmt.Sprintf("ENGINE-MISMATCH witness %s%v: %s (nondet %s)", res.Spec.Harness, res.Spec.Args, bad, jsonStr(s.Nondet, 300)))
+				} else {
+					validated++
+				}
+			}
+		}
+	}
+
+	// report
+	violations := 0
+	knownPrinted := map[int]bool{}
+	var knownMatched []string
+	for _, cf := range cfs {
+		switch cf.status {
+		case "known":
+			if !knownPrinted[cf.knownIx] {
+				knownPrinted[cf.knownIx] = true
+				fmt.Printf("KNOWN-FINDING: property=%s %s\n", prop, known.Findings[cf.knownIx].What)
+				knownMatched = append(knownMatched, known.Findings[cf.knownIx].What)
+			}
+		case "violation":
+			violations++
+			fmt.Printf("VIOLATION property=%s replay=%s\n", prop, cf.replay)
+			fmt.Printf("  %s %s (x%d): %s\n  native: %s\n", cf.f.Kind, cf.f.ID, cf.f.Count, cf.f.Msg, cf.native)
+		}
+	}
+	for _, p := range problems {
+		fmt.Println(p)
+	}
+	writeEvidence(prop, tier, seed, &cfg, results, validated, violations, knownMatched, problems, time.Since(t0).Seconds(), solver)
+	if violations > 0 {
+		return 1
+	}
+	if len(problems) > 0 {
+		fmt.Printf("INCONCLUSIVE property=%s (%d problems)\n", prop, len(problems))
+		return 3
+	}
+	fmt.Printf("OK property=%s tier=%s runs=%d wall=%.1fs\n", prop, tier, len(results), time.Since(t0).Seconds())
+	return 0
+}
+
+func tail(s string, n int) string {
+	s = strings.TrimSpace(s)
+	if len(s) > n {
+		s = "..." + s[len(s)-n:]
+	}
+	return strings.ReplaceAll(s, "\n", " / ")
+}
+
+func jsonStr(v interface{}, max int) string {
+	b, _ := json.Marshal(v)
+	s := string(b)
+	if len(s) > max {
+		s = s[:max] + "..."
+	}
+	return s
+}
+
+func writeEvidence(prop, tier string, seed int64, cfg *PropConfig, results []*RunResult, validated, violations int, knownMatched, problems []string, wall float64, solver string) {
+	states, transitions := 0, 0
+	queries := map[string]int{}
+	solverS := 0.0
+	funcs := map[string]bool{}
+	stubs := map[string]bool{}
+	var samples []interface{}
+	var harnesses []interface{}
+	reach := map[string]int{}
+	exhaustive := len(results) > 0
+	for _, r := range results {
+		states += r.Paths
+		transitions += r.Forks + r.VCs
+		for k, v := range r.Queries {
+			queries[k] += v
+		}
+		solverS += r.SolverS
+		for _, f := range r.Funcs {
+			funcs[f] = true
+		}
+		for _, f := range r.Stubs {
+			stubs[f] = true
+		}
+		for i, s := range r.Samples {
+			if i < 2 {
+				samples = append(samples, s)
+			}
+		}
+		for k, v := range r.Reached {
+			reach[r.Spec.Harness+":"+k] += v
+		}
+		if !r.Exhaustive {
+			exhaustive = false
+		}
+		var fs []string
+		for _, f := range r.Findings {
+			fs = append(fs, fmt.Sprintf("%s %s x%d", f.Kind, f.ID, f.Count))
+		}
+		harnesses = append(harnesses, map[string]interface{}{"harness": r.Spec.Harness, "args": r.Spec.Args, "bounds": r.Spec.Bounds, "preempt": r.Spec.Preempt, "race": r.Spec.Race,
+			"paths": r.Paths, "forks": r.Forks, "vcs": r.VCs, "steps": r.Steps, "queries": r.Queries, "solver_s": r.SolverS, "wall_s": r.WallS, "exhaustive": r.Exhaustive, "end_reasons": r.EndReasons, "findings": fs})
+	}
+	var repoFns, stdFns, harnFns []string
+	for f := range funcs {
+		switch {
+		case strings.Contains(f, "go9p.vx") || strings.Contains(f, "go9p.ref") || strings.Contains(f, "$vx"):
+			harnFns = append(harnFns, f)
+		case strings.Contains(f, "github.com/rminnich/go9p"):
+			repoFns = append(repoFns, f)
+		default:
+			stdFns = append(stdFns, f)
+		}
+	}
+	sort.Strings(repoFns)
+	sort.Strings(stdFns)
+	sort.Strings(harnFns)
+	var stubL []string
+	for s := range stubs {
+		stubL = append(stubL, s)
+	}
+	sort.Strings(stubL)
+	if len(samples) == 0 {
+		samples = append(samples, "no completed path")
+	}
+	if states == 0 {
+		states = 0
+	}
+	ev := map[string]interface{}{
+		"property_id": prop,
+		"tier":        tier,
+		"seed":        seed,
+		"level":       "model_checking",
+		"coverage": map[string]interface{}{
+			"states":                        states,
+			"transitions":                   transitions,
+			"traces_validated_against_impl": validated,
+			"samples":                       samples,
+			"exhaustive":                    exhaustive && len(problems) == 0,
+			"functions_encoded":             map[string]interface{}{"repo": repoFns, "std_count": len(stdFns), "harness_count": len(harnFns), "stubbed": stubL},
+			"queries":                       queries,
+			"solver_s":                      solverS,
+			"solver":                        solver,
+			"harness_runs":                  harnesses,
+			"reachability":                  reach,
+			"known_findings_matched":        knownMatched,
+			"problems":                      problems,
+			"outside_the_claim":             cfg.Outside,
+			"explanation":                   "states = symbolic paths explored to completion (each covers every input value driving the code down that path); transitions = forks + verification conditions discharged by the SMT solver; traces_validated = native replays (witness paths and counterexamples) whose observations agreed with the symbolic run",
+		},
+		"assumptions": cfg.Assumptions,
+		"wall_s":      wall,
+		"violations":  violations,
+	}
+	os.MkdirAll(filepath.Join(verifDir, "evidence"), 0o755)
+	b, _ := json.MarshalIndent(ev, "", " ")
+	os.WriteFile(filepath.Join(verifDir, "evidence", prop+".json"), b, 0o644)
+}
+
+func cmdReplay(prop, path string) int {
+	b, err := os.ReadFile(path)
+	if err != nil {
+		fmt.Println(err)
+		return 3
+	}
+	var rf ReplayFile
+	if err := json.Unmarshal(b, &rf); err != nil {
+		fmt.Println(err)
+		return 3
+	}
+	defer os.RemoveAll(filepath.Join(verifDir, ".work", strconv.Itoa(os.Getpid())))
+	var cfg PropConfig
+	if cb, err := os.ReadFile(filepath.Join(verifDir, "props", prop+".json")); err == nil {
+		json.Unmarshal(cb, &cfg)
+	}
+	cases := map[string][2]interface{}{caseKey(rf.Harness, rf.Args): {rf.Harness, rf.Args}}
+	bin, err := buildNative(rf.Files, cases, rf.Kind == "RACE", cfg.RewriteOS)
+	if err != nil {
+		fmt.Println(err)
+		return 3
+	}
+	vec := writeTempReplay(rf.Nondet, rf.Harness)
+	out, _ := bin.run(caseKey(rf.Harness, rf.Args), vec, 60*time.Second)
+	fmt.Println(out)
+	o := parseNative(out)
+	ok, why := confirmFinding(&Finding{Kind: rf.Kind, ID: rf.ID}, o)
+	if ok {
+		fmt.Printf("REPRODUCED %s %s: %s\n", rf.Kind, rf.ID, why)
+		return 1
+	}
+	fmt.Printf("NOT-REPRODUCED %s %s: %s\n", rf.Kind, rf.ID, why)
+	return 0
+}
+
+func cmdSelftest(args []string) int { return 0 }
